@@ -159,7 +159,7 @@ def main(tier: str, seed: int) -> int:
         h = fam['hs'][(i // len(hists)) % len(fam['hs'])]
         kc = config_lattice.to_kaisa(c)
         kc.update(fam['hp'])
-        kc.update(model=['mlp3', 'mixb', 'mlp2'][i % 3], param_dtype='float64',
+        kc.update(model=['mlp3', 'mixb', 'mlp2', 'eq'][i % 4], param_dtype='float64',
                   inv_dtype='float32')
         cases.append({'cfg': kc, 'h': h, 'seed': seed * 100 + i, 'i': i})
     outs = pmap(run_case, cases)
